@@ -169,6 +169,12 @@ func run(r *simkit.Run) {
 		s.ps = newPoolState()
 	}
 	s.CheckState("genesis")
+	if prof == "pool" && os.Getenv("VERIF_CHAINSIM_MODE") == "poolrace" {
+		r.Meta["mode"] = "poolrace"
+		r.Sig("poolrace")
+		s.runPoolRace()
+		return
+	}
 
 	// profile weights
 	pMut, pLimit, pOOO := 120, 80, 150 // permille: invalid mutant, at-limit variant, out-of-order delivery
@@ -221,6 +227,9 @@ func run(r *simkit.Run) {
 			wHdr, wQry, wAri = 35, 8, 1
 		case "retarget":
 			wHdr, wQry, wAri = 10, 1, 8
+		case "selection", "consensus", "crash", "utxo":
+			// headers-first deliveries are part of every delivery sequence
+			wHdr = 8
 		}
 		wVote := 0
 		if prof == "votes" {
@@ -244,7 +253,12 @@ func run(r *simkit.Run) {
 		case 20:
 			s.CloneCompare(c.Bool(500, "clone-flush-first"))
 		case 14: // submit a new transaction
-			t := s.buildPoolTx(simkit.Pick(c, "ptx-kind", 50, 25, 15, 10))
+			var t *MTx
+			if k := simkit.Pick(c, "ptx-kind", 50, 25, 15, 10, 8); k == 4 {
+				t = s.buildTargetedReplacement()
+			} else {
+				t = s.buildPoolTx(k)
+			}
 			if t == nil {
 				continue
 			}
@@ -337,7 +351,10 @@ func run(r *simkit.Run) {
 		case 8: // invalidate a delivered block
 			var cands []*MBlock
 			for _, b := range w.Blocks[1:] {
-				if s.accepted(b) {
+				// (invalidating a block that is already excluded through an
+				// ancestor, or reconsidering one that is only excluded
+				// through an ancestor, has no agreed meaning: not generated)
+				if s.accepted(b) && !s.excluded(b) {
 					cands = append(cands, b)
 				}
 			}
@@ -362,7 +379,7 @@ func run(r *simkit.Run) {
 		case 9: // reconsider
 			var cands []*MBlock
 			for _, b := range w.Blocks[1:] {
-				if s.manualInv[b] || (s.excluded(b) && s.accepted(b) && c.Bool(200, "reconsider-descendant")) {
+				if s.manualInv[b] {
 					cands = append(cands, b)
 				}
 			}
